@@ -556,6 +556,10 @@ fn explore<T: Sut>(rep: &mut Report, bad: &mut MinCases, ops: &[Op], depth: usiz
             tot.executions += 1;
             tot.transitions += o.steps;
             rep.count(&format!("{}_histories", T::NAME), 1);
+            if let Some(Op::FailInsert(_, p) | Op::FailTryInsert(_, p)) = h.last().map(|&o| ops[o as usize]) {
+                rep.count(&format!("{}_histories_ending_in_failing_insert", T::NAME), 1);
+                rep.count(&format!("failing_insert_at_position_{p}"), 1);
+            }
             if let Some(p) = o.prefix_fail {
                 mcx::machinery_error(&format!("C45: history {} failed in its already accepted prefix ({p}): the store is not deterministic under replay", hist_name(ops, &h)));
             }
@@ -662,6 +666,11 @@ pub fn run(args: &Args) {
         format!("state = history; BFS over {} operations with de-duplication on (model map, last version per id, directory listing with sizes) to depth {depth}, plus every history without de-duplication to depth {plain_depth}; each history replayed on a fresh real store (fs: fresh /dev/shm directory); histories whose last step violates the oracle are reported once per (store, operation kind, failure class) with the minimal history and are not extended", ops.len()),
     );
     rep.assume("I/O errors and resource exhaustion are not modelled; concurrency between handles is out of scope (one live handle at a time; try_clone continues on the clone).");
+    rep.require_nonzero("fs_histories_ending_in_failing_insert");
+    rep.require_nonzero("mem_histories_ending_in_failing_insert");
+    for p in FAIL_POS {
+        rep.require_nonzero(&format!("failing_insert_at_position_{p}"));
+    }
     rep.require_nonzero("fs_histories");
     rep.require_nonzero("mem_histories");
     rep.finish()
